@@ -12,11 +12,11 @@ def check(rep):
                     "data_structures/syntax_tree.py"}
     ER.rule_no_shared_state(ctx, rid="C11.NO-SHARED-COMPILE-STATE",
                             only=lambda m, fn: m.rel in COMPILE_PATH or (m.rel == "utils/wraper_functions.py" and fn.name == "parse_source"),
-                            floor=20)
+                            floor=20, accumulating_only=True)
     ER.rule_instance_only(ctx)
     ER.rule_installed_function(ctx)
     ER.rule_init_delegates(ctx)
-    ER.rule_call_forwards(ctx, rid="C11.CALL-FORWARDS")
+    ER.rule_call_forwards(ctx, rid="C11.CALL-FORWARDS", aspects=("result",))
     ER.rule_fresh_per_parse(ctx, rid="C11.FRESH-LEXER-PER-PARSE", kinds=("Lexer",))
     ER.rule_value_keyed_caches(ctx, rid="C11.NO-VALUE-KEYED-CACHE", modules={"experiment_evaluator.py", "utils/wraper_functions.py"})
     return ("Commit-point ordering by path enumeration of recompile(): on every path all may-raise statements precede all state "
